@@ -6,6 +6,10 @@ A term is a JSON-able nested list/tuple:
     ['t', 'abc']  ['nil']  ['line']  ['softline']  ['hardline']
     ['cat', [d, ...]]  ['nest', i, d]  ['group', d]  ['fc', when_broken, when_flat]
     ['ab', d]  ['fill', [d, ...]]  ['align', d]  ['hang', i, d]  ['ann', tag, d]
+    ['ctx', d]   contextual(fn) whose fn returns d            (denotes exactly what d denotes)
+    ['rctx', d]  the same, but fn first runs a complete, unrelated layout through the public
+                 layout functions (a printer measuring something with the library re-enters it
+                 exactly like this) - still denotes exactly what d denotes
 
 The reference semantics is written from the statement of C04, not from layout.py:
 
@@ -67,7 +71,39 @@ def build(t):
         return D.hang(t[1], build(t[2]))
     if k == 'ann':
         return D.annotate(tagobj(t[1]), build(t[2]))
+    if k == 'ctx':
+        inner = build(t[1])
+        return D.contextual(lambda indent, column, page_width, ribbon_width: inner)
+    if k == 'rctx':
+        inner = build(t[1])
+
+        order = size(t[1]) % 2
+
+        def fn(indent, column, page_width, ribbon_width):
+            _reenter(order)
+            return inner
+        return D.contextual(fn)
     raise ValueError(t)
+
+
+_REENTER = {}
+
+
+def _reenter(order):
+    """Run two complete layouts of an unrelated document (an outer group around an inner one, text
+    after them) inside the evaluation of a contextual: one at a width where the outer group does not
+    fit and one where everything fits; `order` (a property of the term, so that a case replays alone)
+    says which comes last and which strategy runs which."""
+    from prettyprinter import doc as D
+    from prettyprinter.layout import layout_smart, layout_fast
+    if 'doc' not in _REENTER:
+        g = D.group(D.concat(['xx', D.LINE, D.group(D.concat(['y', D.LINE, 'y'])), D.LINE, 'zzzz']))
+        _REENTER['doc'] = D.concat([g, 'tail'])
+    plan = ((layout_smart, 6), (layout_fast, 200)) if order else ((layout_fast, 200), (layout_smart, 6))
+    n = 0
+    for layout, w in plan:
+        n += sum(1 for _ in layout(_REENTER['doc'], width=w, ribbon_frac=0.7))
+    return n
 
 
 def show(t):
@@ -90,6 +126,10 @@ def show(t):
         return 'align(%s)' % show(t[1])
     if k == 'ann':
         return 'annotate(%r, %s)' % (t[1], show(t[2]))
+    if k == 'ctx':
+        return 'contextual(-> %s)' % show(t[1])
+    if k == 'rctx':
+        return 'contextual(re-enters the library; -> %s)' % show(t[1])
     raise ValueError(t)
 
 
@@ -313,6 +353,8 @@ class Rendering:
                 g = self._open('fillitem', c, path + (i,), ch == 0, indent)
                 self.go(c, FLAT if ch == 0 else BREAK, indent, path + (i,))
                 self._close(g)
+        elif k == 'ctx' or k == 'rctx':
+            self.go(t[1], mode, indent, path + (0,))
         elif k == 'ann':
             self.out.append(('+', t[1]))
             self.go(t[2], mode, indent, path + (0,))
@@ -388,3 +430,24 @@ def config_lattice(term, extra=((80, 0.9), (80, 1.0))):
             yield (w, r / w, r)
     for w, f in extra:
         yield (w, f, ribbon_width(w, f))
+
+
+def wrap_variants(term, kind='rctx'):
+    """The term with each single subterm position, in turn, wrapped in [kind, .]."""
+    yield [kind, term]
+    k = term[0]
+    if k in ('cat', 'fill'):
+        for i, c in enumerate(term[1]):
+            for v in wrap_variants(c, kind):
+                yield [k, term[1][:i] + [v] + term[1][i + 1:]]
+    elif k in ('nest', 'hang', 'ann'):
+        for v in wrap_variants(term[2], kind):
+            yield [k, term[1], v]
+    elif k == 'fc':
+        for v in wrap_variants(term[1], kind):
+            yield [k, v, term[2]]
+        for v in wrap_variants(term[2], kind):
+            yield [k, term[1], v]
+    elif k in ('group', 'ab', 'align', 'ctx', 'rctx'):
+        for v in wrap_variants(term[1], kind):
+            yield [k, v]
